@@ -481,6 +481,13 @@ def body_loader(case, ctx):
         ctx.check(bool(np.all(c > 0) and np.all(np.isfinite(c))), "loader-nonpositive-coefficient", f"{tag}: min coeff {c.min()!r}")
         if not (np.array_equal(c, np.array(data[sym]["coeffs_s"], dtype=float)) and np.array_equal(a, np.array(data[sym]["alphas_s"], dtype=float))):
             ctx.fail("loader-not-the-file-content", f"{tag}: arrays differ from coeffs_s/alphas_s of {sym} in atomic_gauss_params.json")
+        # "loads as matching arrays of positive exponents" must hold for EVERY load: what a caller does with the
+        # arrays it got (here: destroys them in place) must not leak into the next load through the lazy table
+        try:
+            out[0][...] = -1.0
+            out[1][...] = 0.0
+        except (ValueError, TypeError):
+            pass  # read-only results would be fine too
 
 
 def selftest():
